@@ -187,19 +187,54 @@ def run(ctx):
         if lang is not None and lang and r % 4 == 0:
             from lib_guesser.honeyword_session import HoneywordSession
             n = ctx.rng.randint(1, 9)
+            if len(lang) <= 40 and ctx.rng.random() < 0.5:
+                n = len(lang) + ctx.rng.randint(1, 5)      # more words than the language has: repeats are unavoidable
             words = []
             old = g.print_guess
             g.print_guess = words.append
+            # watchdog: a session that does not reach N words within 300*N walks is a violation, not a hang
+            walks = [0]
+            real_walk = g.random_walk
+
+            def counted_walk():
+                walks[0] += 1
+                if walks[0] > 300 * n + 1000:
+                    raise RuntimeError("watchdog")
+                return real_walk()
+            g.random_walk = counted_walk
             try:
-                import lib_guesser.honeyword_session as hs
-                hs_old = hs.random
-                real_random = __import__("random")
                 sess = HoneywordSession(g, "random_walk")
-                common.quiet_call(sess.run, limit=n)
+                try:
+                    common.quiet_call(sess.run, limit=n)
+                except RuntimeError:
+                    vio.append({"sig": "C16:limit-not-reached", "what": "random_walk session with limit %d produced only %d words in %d walks "
+                                "(language has %d words)" % (n, len(words), walks[0], len(lang)), "replay": {"ruleset": rs, "n": n}})
             finally:
                 g.print_guess = old
+                g.random_walk = real_walk
             dist["honeyword_sessions"] += 1
             dist["words"] += len(words)
+            # independent replay of the session: word k comes from the walk seeded with the k-th seed, nothing else
+            import random as _r
+            exp_words, seed_k, guard = [], 1, 0
+            while len(exp_words) < n and guard < 300 * n + 1000:
+                guard += 1
+                g2 = impl_next.load_grammar(rs, sc)     # fresh object: no state carried from word to word
+                g2.grammar, g2.base = g.grammar, g.base
+                _r.seed(seed_k)
+                it2 = g2.random_walk()
+                res2 = []
+                g2.print_guess = res2.append
+                try:
+                    g2.create_guesses(it2["pt"], is_honeyword=True, limit=n - len(exp_words))
+                except Exception:
+                    pass
+                exp_words += res2
+                seed_k += 1
+            if words != exp_words[:n] and len(words) == n:
+                vio.append({"sig": "C16:session-not-independent-draws", "what": "random_walk session output differs from the per-seed replay at word %d: "
+                            "each word must be the walk of its own seed (independent draws)" % next((i for i, (a, b) in enumerate(zip(words, exp_words)) if a != b), -1),
+                            "replay": {"ruleset": rs, "n": n}})
             if len(words) != n:
                 vio.append({"sig": "C16:count", "what": "random_walk session with limit %d produced %d words" % (n, len(words)), "replay": {"ruleset": rs, "n": n}})
             bad = [w for w in words if w not in lang]
@@ -207,10 +242,16 @@ def run(ctx):
                 vio.append({"sig": "C16:not-in-language", "what": "words outside the non-Markov language: %r" % bad[:3], "replay": {"ruleset": rs, "n": n}})
             words2 = []
             g.print_guess = words2.append
+            walks[0] = 0
+            g.random_walk = counted_walk
             try:
-                common.quiet_call(HoneywordSession(g, "random_walk").run, limit=n)
+                try:
+                    common.quiet_call(HoneywordSession(g, "random_walk").run, limit=n)
+                except RuntimeError:
+                    pass
             finally:
                 g.print_guess = old
+                g.random_walk = real_walk
             if words2 != words:
                 vio.append({"sig": "C16:random-walk-not-reproducible", "what": "two random_walk sessions differ", "replay": {"ruleset": rs, "n": n}})
         tbl_lit = common.clist([common.clist(["(%s, %d%%nat)" % (common.cfloat(p), k) for p, k in row]) if row else "(@nil (float * nat))" for row in table]) \
